@@ -10,8 +10,15 @@
 (* "read" steps.                                                                             *)
 EXTENDS Codec, Json, TLCExt
 
+CONSTANT Sim     \* TRUE for -simulate: every choice is drawn at random instead of enumerated, so
+                 \* that a step has a handful of successors and the behaviours are spread evenly
+
 VARIABLES hist, done
 gvars == <<vars, hist, done>>
+
+Pick(S) == IF Sim /\ S # {} THEN {RandomElement(S)} ELSE S
+PickTable == IF Sim THEN {RandomElement({BuiltinBase, BuiltinAll, RandomElement(GenTables)})} ELSE Tables
+PickStr(S, n) == IF Sim /\ n > 0 THEN {[i \in 1..RandomElement(1..n) |-> RandomElement(S)]} ELSE Strs(S, n)
 
 GInit == Init /\ hist = <<>> /\ done = FALSE
 
@@ -24,19 +31,19 @@ Ret == [a |-> "ret", res |-> IF pc' = "eof" THEN "eof" ELSE IF pc' = "err" THEN 
 
 GNext ==
     /\ ~done
-    /\ \/ \E T \in Tables : TableFromJSON(T, T) /\ UNCHANGED <<hist, done>>
-       \/ \E p \in Strs(Bytes, MaxSeg) :
+    /\ \/ \E T \in PickTable : TableFromJSON(T, T) /\ UNCHANGED <<hist, done>>
+       \/ \E p \in PickStr(Bytes, MaxSeg) :
              /\ Len(data) + Len(p) <= MaxLen /\ (\A i \in 1..Len(data) : data[i] \in Bytes)
              /\ WriterWrite(p, Escape(table, p))
              /\ hist' = Append(hist, [a |-> "write", p |-> p, out |-> Escape(table, p)]) /\ UNCHANGED done
-       \/ \E b \in 0..255 : /\ data = <<>> /\ b \notin Bytes /\ WriterWrite(<<b>>, Escape(table, <<b>>))
+       \/ \E b \in Pick((0..255) \ Bytes) : /\ data = <<>> /\ b \notin Bytes /\ WriterWrite(<<b>>, Escape(table, <<b>>))
              /\ hist' = Append(hist, [a |-> "write", p |-> <<b>>, out |-> Escape(table, <<b>>)]) /\ UNCHANGED done
        \/ WriterClose /\ UNCHANGED <<hist, done>>
-       \/ \E w \in Strs(Bytes, MaxRaw) : Inject(w) /\ hist' = Append(hist, [a |-> "inject", w |-> w]) /\ UNCHANGED done
-       \/ \E c \in Caps \ {0} : ReadStart(c) /\ hist' = Append(hist, [a |-> "read", cap |-> c]) /\ UNCHANGED done
+       \/ \E w \in PickStr(Bytes, MaxRaw) : Inject(w) /\ hist' = Append(hist, [a |-> "inject", w |-> w]) /\ UNCHANGED done
+       \/ \E c \in Pick(Caps \ {0}) : ReadStart(c) /\ hist' = Append(hist, [a |-> "read", cap |-> c]) /\ UNCHANGED done
        \/ /\ ReadDecode /\ UNCHANGED done
           /\ hist' = IF pc' = "fill" THEN hist ELSE Append(hist, Ret)
-       \/ \E n \in 1..(Len(wire) - fed) :
+       \/ \E n \in Pick(1..(Len(wire) - fed)) :
              /\ ReadFill(SubSeq(wire, fed + 1, fed + n))
              /\ hist' = Append(hist, [a |-> "fill", c |-> SubSeq(wire, fed + 1, fed + n)]) /\ UNCHANGED done
        \/ ReadEOF /\ hist' = Append(hist, Ret) /\ UNCHANGED done
